@@ -1,10 +1,12 @@
 """C05 - condition events fire exactly when their predicate first holds, with exact value."""
 from harness import kprops, koracle, kbridge
-from harness.kbridge import EXTRA_MODULES, TRUSTED_EXTRA, prepare
+from harness.kbridge import TRUSTED_EXTRA
+EXTRA_MODULES = kbridge.MODULES['C05']      # this property's bridge modules only (py2lean/SCOPE.md)
+prepare = kbridge.prepare_for('C05')    # regenerates only the generated files this property owns
 ASSUMPTIONS = ['condition trees of depth <= 3 over timeouts, shared events and processes; one environment (the mixed-environment refusal is checked by a direct call)']
 SPEC = [(8, 'cond'), (3, 'chain'), (2, 'decided'), (1, 'outcome'), (1, 'plan:cond'), (1, 'plan:chain')]
 def run(ctx):
-    res = kprops.run_kernel(ctx, 'C05', SPEC, 2000, 60000, oracles=[kprops.oracle_time_monotone, koracle.oracle_c05],
+    res = kprops.run_kernel(ctx, 'C05', SPEC, 2000, 60000, attribute=kprops.stop_is_not_the_cause, oracles=[kprops.oracle_time_monotone, koracle.oracle_c05],
                             nontrivial=lambda c, lines: any(' got cv[' in l for l in lines),
                             rule='seeded random script programs; non-trivial = distinct script in which a process received a ConditionValue')
     # mixing environments is refused with ValueError (direct calls on the implementation; every shape of "mixed")
